@@ -142,6 +142,7 @@ class P(b1.Plugin):
         td.extra_json = {"ordmode": mode}
         td.mode = mode
         draw_ord_fields(rng, td, mode, explicit_rank_p=0.2)
+        td.own_discriminants = True
         gen.finalize_attrs(rng, td, [t for t in ("Debug",) if rng.random() < 0.3])
         # wrappers used by the neighbour-bytes repetition
         td.extra_items.append("#[repr(C)] pub struct W%d(pub %s, pub [u8; 16]);" % (td.id, td.name))
